@@ -38,6 +38,9 @@ type Stim struct {
 	MaxRetries int   `json:"maxRetries"`
 	Events     []Evt `json:"events"`
 	Srv        bool  `json:"srv"` // also against a real udp server on a loopback socket
+	// AckPong: on datagram connections the peer answers the library's pings (empty CON) with an empty ACK of the same
+	// message ID instead of a RST - it acknowledges them; either way the ping was answered
+	AckPong bool `json:"ackPong"`
 }
 
 type Obs struct {
@@ -190,7 +193,11 @@ func runUDP(st Stim) Trace {
 		case "pong":
 			scan()
 			if e.G >= 1 && e.G <= len(pingMIDs) {
-				_ = u.Inject(memnet.Build(message.Reset, int(codes.Empty), pingMIDs[e.G-1], nil, nil, nil))
+				typ := message.Reset
+				if st.AckPong {
+					typ = message.Acknowledgement
+				}
+				_ = u.Inject(memnet.Build(typ, int(codes.Empty), pingMIDs[e.G-1], nil, nil, nil))
 			}
 		case "tick":
 			u.CC.CheckExpirations(clock())
